@@ -136,6 +136,17 @@ def run(pid, tier, seed, model_ok, replay):
         dist["caps"][cap] = dist["caps"].get(cap, 0) + 1
         if len(tr) > 10:
             nontrivial.add("\n".join(lines))
+    # cache-level clause: only get calls are recorded (both caches), lock-step on the sketch words
+    if not replay:
+        import gen, p_cache, oracles
+        crng = random.Random(seed * 17 + 14)
+        ccases = [gen.gen_cache_case(crng, k, i, profile=crng.choice(["admission", "tight", "basic"]))
+                  for k in ("unsync", "sync") for i in range(120 if tier == "quick" else 1500)]
+        cres = p_cache.run_cases(pid, oracles.oracle_only_get_records, p_cache.PROJ["sketch"], ccases, model_ok)
+        violations += cres["violations"]
+        disagreements += cres["disagreements"]
+        dist["cache_histories_for_only_get_records"] = cres["evaluations"]
+        cases = cases + ccases
     return {
         "evaluations": len(cases),
         "distinct_nontrivial": len(nontrivial),
